@@ -138,6 +138,7 @@ class WorkCopy:
     def run_harness(self, args, input_text=None, timeout=600, binary=None, extra_env=None):
         env = dict(self.env)
         env.setdefault("GOMEMLIMIT", "6GiB")
+        env.setdefault("VERIF_HANGDIR", os.path.join(VERIF, "replays", "hangs"))
         if extra_env:
             env.update(extra_env)
         p = subprocess.run(
